@@ -1,5 +1,6 @@
 """C14 - nucleation quantities obey classical nucleation theory for every site type.
 
+R14.8 a moment of phase j's distribution is taken on the population balance of phase j (index agreement of self.PBM[i].*FromN(x[j]))
 R14.7 boundary-site barrier at a clamped radius agrees with the bulk branch (sibling agreement, sympy)
 R14.1 T-FRESH on NucleationBarrierParameters (lazy caches discovered from the code follow gamma, gbEnergy, site type)
 R14.2 zero-rate completeness of the per-phase record (= C02 R2.4)
@@ -263,6 +264,8 @@ def r143(repo, ctx):
 
 def check(repo, ctx, index, purity):
     ctx.explanation = EXPLANATION
+    from .kwn import pbm_index_agreement
+    pbm_index_agreement(repo, ctx, 'R14.8')
     ctx.assumptions += ['sympy simplification of the inverse-trigonometric identities', 'shape-factor f is treated as a constant in the Rcrit formula']
     # R14.1
     caches, inputs, problems, npaths = fresh.check_class(repo, index, NBP)
